@@ -138,7 +138,8 @@ def opSim (j : Json) : Json :=
     levels := levels,
     systems := (jarr (jfield j "systems")).map jstr,
     parent := (jpairs (jfield j "parent")).map (fun (a, b) => (jstr a, jstr b)) }
-  let S : Static := if jbool (jfield j "flatten") then S.flatten (S.levels.length + 2) else S
+  let rfuel := (S.levels.foldl (fun n L => n + L.wiring.components.length) 0) + S.levels.length + 2
+  let S : Static := if jbool (jfield j "flatten") then S.flatten rfuel else S
   let orc : Oracle := (jpairs (jfield j "oracle")).map (fun (c, rs) => (jstr c, (jarr rs).map jResp))
   let t0 := jint (jfield j "t0")
   let r0 := jint (jfield j "r0")
@@ -168,7 +169,7 @@ def opBus (j : Json) : Json :=
     match jarr r with
     | [k, v, pubs] => some ((jnat k, jint v), (jpairs pubs).map (fun (T, v') => (jstr T, jint v')))
     | _ => none)
-  let h : Handler := fun k v => ((script.find? (fun e => e.1 == (k, v))).map (·.2)).getD []
+  let h : Handler := fun k _ v => ((script.find? (fun e => e.1 == (k, v))).map (·.2)).getD []
   let ops := (jarr (jfield j "ops")).map jBusOp
   let b := ops.foldl (Bus.apply h (jnat (jfield j "fuel"))) {}
   let nCons := jnat (jfield j "n_consumers")
